@@ -32,7 +32,7 @@ func (ex *Exec) setQuantity(st *State, p Val, q *Term, pos token.Pos) {
 }
 
 func (ex *Exec) newBox(st *State, t types.Type, v Val) Val {
-	id := ex.alloc(st)
+	id := ex.alloc(st, "H_"+heapKeyT(t))
 	for i, l := range Layout(t) {
 		name := fieldHeapName(t, l.Path)
 		h := ex.heapGet(st, name, ArrSort(SInt, l.Sort))
@@ -299,6 +299,7 @@ func (ex *Exec) theoryCall(fr *Frame, st *State, key string, fn *ssa.Function, a
 		}
 		arr, off, ln := sv.L[0], sv.L[1], sv.L[2]
 		ls := Layout(sl.Elem())
+		preSort := st.clone()
 		olds := make([]*Term, len(ls))
 		news := make([]*Term, len(ls))
 		for i, l := range ls {
@@ -327,6 +328,57 @@ func (ex *Exec) theoryCall(fr *Frame, st *State, key string, fn *ssa.Function, a
 			ex.assume(st, Forall([]*Term{j}, Implies(inr(j), And(facts...)), []*Term{Select(news[0], j)}, []*Term{perm(j)}))
 			ex.assume(st, Forall([]*Term{k}, Implies(inr(k), And(inr(inv(k)), Eq(perm(inv(k)), k))), []*Term{Select(olds[0], k)}, []*Term{inv(k)}))
 		}
+		// precondition of sort.Slice: `less(i, j)` must be a function of the ELEMENTS at i and j (the sort moves
+		// elements around and keeps calling less with positions); a comparator that indexes other data by position
+		// is inconsistent. Checked by evaluating the closure on two symbolic index pairs holding equal elements.
+		if clo := args[1].Clo; clo != nil && len(ls) > 0 && ex.dry == 0 {
+			nInstr := 0
+			if cf, ok := clo.Fn.(*ssa.Function); ok {
+				for _, b := range cf.Blocks {
+					nInstr += len(b.Instrs)
+				}
+			}
+			impure0 := ex.impure
+			if cf, ok := clo.Fn.(*ssa.Function); ok && len(cf.Blocks) > 0 && len(cf.Params) == 2 && nInstr <= 80 {
+				i1, j1, i2, j2 := Fresh("si", SInt), Fresh("sj", SInt), Fresh("si", SInt), Fresh("sj", SInt)
+				eval := func(a, b *Term) *Term {
+					saveA, saveO := len(ex.assumps), len(ex.obligs)
+					ex.dry++
+					var res *Term
+					func() {
+						defer func() {
+							ex.dry--
+							if r := recover(); r != nil {
+								if _, isU := r.(Unsupported); !isU {
+									panic(r)
+								}
+							}
+						}()
+						cst := preSort.clone()
+						ex.assume(cst, And(inr(a), inr(b)))
+						vals, out, _ := ex.execFunc(cf, []Val{scalar(cf.Params[0].Type(), a), scalar(cf.Params[1].Type(), b)}, clo.Bindings, cst, fr.depth+1, nil)
+						if out != nil && len(vals) == 1 && len(vals[0].L) == 1 && vals[0].L[0].sort == SBool {
+							res = vals[0].L[0]
+						}
+					}()
+					// keep the facts gathered while evaluating (loads etc.), drop obligations raised inside
+					_ = saveA
+					ex.obligs = ex.obligs[:saveO]
+					return res
+				}
+				r1 := eval(i1, j1)
+				r2 := eval(i2, j2)
+				if r1 != nil && r2 != nil && ex.impure == impure0 {
+					var same []*Term
+					for i := range ls {
+						same = append(same, Eq(Select(olds[i], i1), Select(olds[i], i2)), Eq(Select(olds[i], j1), Select(olds[i], j2)))
+					}
+					hyp := And(inr(i1), inr(j1), inr(i2), inr(j2), And(same...))
+					o := ex.oblige(st, "callpre", "call:sort.Slice/pre#elementwise", Implies(hyp, Eq(r1, r2)), pos)
+					_ = o
+				}
+			}
+		}
 		ex.note("extern", key+" (elements permuted by a bijection of the index range; the order produced is not modelled)")
 		return void()
 	}
@@ -335,7 +387,7 @@ func (ex *Exec) theoryCall(fr *Frame, st *State, key string, fn *ssa.Function, a
 
 func (ex *Exec) copyMap(st *State, m Val) Val {
 	mh := mapOf(m.T)
-	id := ex.alloc(st)
+	id := ex.alloc(st, "M_"+mh.key)
 	d := ex.heapGet(st, mh.domName(), mh.domSort())
 	ex.heapSet(st, mh.domName(), Store(d, id, Select(d, m.S())))
 	ln := ex.heapGet(st, mh.lenName(), ArrSort(SInt, SInt))
